@@ -545,6 +545,13 @@ class SymCtx:
         self.inputs[name] = ('bool', v)
         return SymBool(v)
 
+    def string(self, name, domain):
+        """a string from the finite universe `domain` (the solver picks which)"""
+        v = z3.Int(name)
+        self.solver.add(v >= 0, v < len(domain))
+        self.inputs[name] = ('str', (v, list(domain)))
+        return SymStr(v, domain)
+
     def note(self, key, value):
         self.notes[key] = value
 
@@ -628,6 +635,8 @@ class SymCtx:
                 out[name] = model.eval(v, model_completion=True).as_long()
             elif kind == 'bool':
                 out[name] = z3.is_true(model.eval(v, model_completion=True))
+            elif kind == 'str':
+                out[name] = v[1][model.eval(v[0], model_completion=True).as_long()]
         return out
 
     def nice_model(self, extra=None):
@@ -754,6 +763,9 @@ class ConCtx:
     def bool(self, name):
         return bool(self.values[name])
 
+    def string(self, name, domain):
+        return self.values[name]
+
     def note(self, key, value):
         self.notes[key] = value
 
@@ -768,3 +780,60 @@ class ConCtx:
         self.labels.append(label)
         if not bool(cond):
             raise ConcreteViolation(label)
+
+
+class SymStr:
+    """A string drawn from a finite universe of candidate values (index is a z3 Int).
+    Good for attribute values that the code only compares, searches or hashes."""
+    __slots__ = ('idx', 'domain')
+
+    def __init__(self, idx, domain):
+        self.idx = idx
+        self.domain = list(domain)
+
+    def _where(self, pred):
+        hits = [self.idx == k for k, v in enumerate(self.domain) if pred(v)]
+        return SymBool(z3.Or(*hits) if hits else z3.BoolVal(False))
+
+    def __eq__(self, o):
+        if isinstance(o, SymStr):
+            return SymBool(z3.Or(*[z3.And(self.idx == i, o.idx == j) for i, a in enumerate(self.domain)
+                                   for j, b in enumerate(o.domain) if a == b] or [z3.BoolVal(False)]))
+        if isinstance(o, str):
+            return self._where(lambda v: v == o)
+        return False
+
+    def __ne__(self, o):
+        r = self.__eq__(o)
+        return SymBool(z3.Not(r.z)) if isinstance(r, SymBool) else True
+
+    def __contains__(self, sub):          # `sub in self`; python coerces the result with bool(): forks
+        return self._where(lambda v: sub in v)
+
+    def concretize(self):
+        c = ctx()
+        for k, v in enumerate(self.domain):
+            if c.decide(self.idx == k):
+                return v
+        raise PathAbort('string index outside its domain')
+
+    def __hash__(self):
+        return hash(self.concretize())
+
+    def __str__(self):
+        return self.concretize()
+
+    def lower(self):
+        return SymStr(self.idx, [v.lower() for v in self.domain])
+
+    def upper(self):
+        return SymStr(self.idx, [v.upper() for v in self.domain])
+
+    def split(self, *a):
+        return self.concretize().split(*a)
+
+    def startswith(self, p):
+        return self._where(lambda v: v.startswith(p))
+
+    def __repr__(self):
+        return f'SymStr({self.domain})'
